@@ -341,10 +341,14 @@ func c03Run(env *fw.Env, ruleText string, modes string) fw.Result {
 		res.Msg = fmt.Sprintf("[%s] rule file %q: %d file(s) shipped although their own path is excluded %v; %d file(s) missing although their own path is not excluded %v", mode, ruleText, len(extra), trunc(extra), len(missing), trunc(missing))
 		return res
 	}
+	// how the file ends is part of the input: with a final newline, without
+	// one (the last rule still counts), or with a final CR LF
+	term := []string{"\n", "", "\n", "\r\n", "\n", ""}[fw.HashString(ruleText)%6]
+	res.Case.(map[string]interface{})["file_ends_with"] = term
 	write := func(dir string) {
 		os.Remove(dir + "/.terraformignore")
 		if ruleText != "\x00none" {
-			os.WriteFile(dir+"/.terraformignore", []byte(ruleText+"\n"), 0644)
+			os.WriteFile(dir+"/.terraformignore", []byte(ruleText+term), 0644)
 		}
 	}
 	evals := 0
